@@ -6,7 +6,6 @@ import (
 	"fmt"
 	"io"
 	"os"
-	"sync"
 
 	"github.com/ipld/go-storethehash/store/types"
 	"github.com/ipld/go-storethehash/store/verifhook"
@@ -20,8 +19,8 @@ type FreeList struct {
 	writer          *bufio.Writer
 	outstandingWork types.Work
 	blockPool       []types.Block
-	poolLk          sync.RWMutex
-	flushLock       sync.Mutex
+	poolLk          verifhook.RWMutex
+	flushLock       verifhook.Mutex
 }
 
 const (
